@@ -432,6 +432,12 @@ vector<string> split_args(const string& s) {
       }
     } else if ((s[z] == '\"') || (s[z] == '\'')) {
       current_quote = s[z];
+      // A quoted section always belongs to an argument, even if it's empty
+      // (e.g. '' or ""), so start one here if we're not already in one
+      if (in_space_between_args) {
+        ret.emplace_back();
+        in_space_between_args = false;
+      }
     } else if (s[z] == '\\') {
       can_be_space = false;
       z++;
